@@ -96,6 +96,17 @@ def gen(g, nlogs, tier):
                 k = app(['csv', 'log'], {b'food.yaml': bookfile, b'log.yaml': render(g, kept, layout)}, g=gf, kind='csv log (deleted)', tz=tz, today_date=today)
                 a.meta.update({'pair': k, 'b': kw, 'e': which, 'pos': 'global', 'log': log})
                 cases += [a, k]
+        # a bound that is not a date (another numeric layout, an impossible calendar date) is an error, never "no bound"
+        if layout == '2006/01/02' and n % 3 == 1:
+            for path, has_sub in r.sample(CMDS, 3):
+                for val in ('2021-01-24', '2021/02/30', '2021/13/01', '2021.01.24'):
+                    which = r.choice(['begin', 'end'])
+                    pos = r.choice(['global', 'sub'] if has_sub else ['global'])
+                    gf, sf = {'today': fmt(datetime.date(2021, 1, 28))}, {}
+                    (gf if pos == 'global' else sf)[which] = val
+                    a = app(path, {b'food.yaml': bookfile, b'log.yaml': render(g, log, layout)}, g=gf, s=sf, kind=' '.join(path) + ' (bad bound)')
+                    a.meta.update({'bad_bound': val, 'which': which})
+                    cases.append(a)
         # keywords across a daylight-saving switch of the process zone: the day arithmetic must not pick up the hour
         if n % 2 == 0:
             import os
@@ -134,6 +145,9 @@ def gen(g, nlogs, tier):
 
 def judge(ctx, cases, impl):
     for c in cases:
+        if 'bad_bound' in c.meta and impl[c.id].get('status') != 'err':
+            ctx.problem('oracle', '`%s` accepts the period bound --%s %s (not a date in the date format, not a date phrase) and reports as if no bound were given' % (
+                c.meta['kind'], c.meta['which'], c.meta['bad_bound']), c, {'out': out_of(impl[c.id]).decode('utf-8', 'replace')[:400]}, signature='bad-bound-accepted')
         k = c.meta.get('pair')
         if k is None:
             continue
